@@ -128,7 +128,12 @@ def new_reader():
     conn.state = peer_mod.PEER_READY
     conn.ident = "00" * 6
     delivered = []
-    conn.message_handler = lambda c, m: delivered.append(m)
+
+    def handler(c, m):
+        delivered.append(m)
+        if len(delivered) > 20000:          # far more deliveries than any stream here holds frames: the reader is spinning
+            raise Livelock()
+    conn.message_handler = handler
     th = conn._read_thread
     conn._read_buffer_queue = OneShotQueue(th)
     return conn, delivered
